@@ -62,7 +62,7 @@ void harness_filters_copy(void)
 		for (unsigned i = 0; i < LZMA_FILTERS_MAX; ++i) if (i < n) CHECK(dst[i].id == src[i].id && (dst[i].options == NULL) == (src[i].options == NULL) && (dst[i].options == NULL || dst[i].options != src[i].options), "deep copy");
 		lzma_filters_free(dst, &FA);
 		CHECK(g_outstanding == 0, "lzma_filters_free releases everything");
-#if NCHAIN <= 4 && NCHAIN >= 1
+#if NCHAIN <= 4
 		WITNESS("copy succeeded");
 #endif
 	}
